@@ -748,7 +748,9 @@ def convert_resizebilinear_to_depthwise_convolutions(op, half_pixel_centers=True
         avgpool_op.attrs["strides"] = [1, 1, 1, 1]
         avgpool_op.attrs["ksize"] = [1, 1, 1, 1]
 
-        avgpool_op.add_input_tensor(ifm)
+        # The IFM is the only input of the average pool (it already is input 0 of the resize op; adding it once more left a
+        # second reference behind when a fused slice read replaced input 0)
+        avgpool_op.inputs = [ifm]
         avgpool_op.set_output_tensor(intermediate_tens)
         avgpool_op.set_ifm_ofm_shapes()
         avgpool_op.ifm_shapes[0] = ifm_shape
